@@ -37,16 +37,26 @@ def _sorted_calls(tree):
     """(enclosing function, key description) for every `sorted(...)` call, in source order."""
     out = []
 
+    def part_desc(b):
+        if isinstance(b, ast.Subscript) and isinstance(b.slice, ast.Constant):
+            return f"item:{b.slice.value}"
+        if isinstance(b, ast.Attribute):
+            return f"attr:{b.attr}"
+        if isinstance(b, ast.Call):
+            kws = ",".join(f"{k.arg}={ast.unparse(k.value)}" for k in b.keywords)
+            args = ",".join(ast.unparse(a) for a in b.args)
+            return f"call:{ast.unparse(b.func)}({args}{';' + kws if kws else ''})"
+        return "other:" + ast.unparse(b)
+
     def key_desc(call):
         for kw in call.keywords:
             if kw.arg == "key":
                 v = kw.value
                 if isinstance(v, ast.Lambda):
                     b = v.body
-                    if isinstance(b, ast.Subscript) and isinstance(b.slice, ast.Constant):
-                        return f"item:{b.slice.value}"
-                    if isinstance(b, ast.Attribute):
-                        return f"attr:{b.attr}"
+                    if isinstance(b, ast.Tuple):
+                        return "tuple:" + "|".join(part_desc(e) for e in b.elts)
+                    return part_desc(b)
                 return "other:" + ast.unparse(v)
         return "natural"
 
@@ -132,6 +142,9 @@ def tables():
     tree = ast.parse(Path(inspect.getsourcefile(sh)).read_text())
     calls = _sorted_calls(tree)
     pair = lambda p: f"({lstr(p[0])}, {lstr(p[1])})"  # noqa: E731
+    # what json.dumps(…, sort_keys=True) prints (separators, key order, escapes): a probe value
+    probe = {"b": [1, "x\"y", None, True], "a": {"d": -2, "c": "é"}}
+    decls.append(f"def dumpsProbe : String := {lstr(json.dumps(probe, sort_keys=True))}")
     decls.append(f"def sortedCalls : List (String × String) := {llist(calls, pair)}")
 
     # Symbol.__lt__: which attribute is compared
